@@ -124,7 +124,7 @@ func c02Known(st influxql.Statement, printed, why string) string {
 
 func checkC02(c *Ctx) (string, bool, []string) {
 	r := c.R
-	rule := "every statement accepted in the C01 workload (all clause subsets of all 44 kinds, random payloads, 50% with names that need quoting: spaces, dots, quotes, backslashes, newlines, leading digits, non-ASCII, keywords in several casings) is printed and re-parsed; plus sweeps of fractional durations in every duration slot, floats and exponent forms in literals and fill(), negated operands under every operator, regexes with slashes, stand-alone expressions through ParseExpr, multi-statement queries, and about 900 texts on the frontier of the accepted language (escape spellings, counts and durations at and beyond the value ranges, INF, blank-like and letter-like characters, sign-after-sign, adjacent literals): whichever of them the parser accepts must round-trip. Non-trivial = statement has an optional clause, quoted name or operator; distinct by text."
+	rule := "every statement accepted in the C01 workload (all clause subsets of all 44 kinds, random payloads, 50% with names that need quoting: spaces, dots, quotes, backslashes, newlines, leading digits, non-ASCII, keywords in several casings) is printed and re-parsed; every reserved word in three casings as a quoted name in every name slot of 42 statement shapes; plus sweeps of fractional durations in every duration slot, floats and exponent forms in literals and fill(), negated operands under every operator, regexes with slashes, stand-alone expressions through ParseExpr, multi-statement queries, and about 900 texts on the frontier of the accepted language (escape spellings, counts and durations at and beyond the value ranges, INF, blank-like and letter-like characters, sign-after-sign, adjacent literals): whichever of them the parser accepts must round-trip. Non-trivial = statement has an optional clause, quoted name or operator; distinct by text."
 	assume := []string{"password text is exempt (redacted on purpose) and is put back before re-parsing", "structural equality = astx canonical dump"}
 	if c.Replay != nil && replayStr(c, "sub") == "expr" {
 		text := replayStr(c, "input")
@@ -330,6 +330,13 @@ func checkC02(c *Ctx) (string, bool, []string) {
 		sweeps = append(sweeps, "SELECT v FROM "+re+" WHERE h =~ "+re+" AND g !~ "+re, "SELECT "+re+" FROM m GROUP BY "+re, "SELECT mean("+re+") FROM db.rp."+re, "SHOW TAG VALUES WITH KEY =~ "+re, "SHOW MEASUREMENTS WITH MEASUREMENT =~ "+re)
 	}
 	names := []string{`"my db"`, `"a.b"`, `"q\"t"`, `"b\\s"`, `"nl\nx"`, `"1st"`, `"é"`, `"select"`, `"SELECT"`, `"Time"`, `"x'y"`, `"with space "`, `"true"`, `"and"`, `"inf"`, `"*"`}
+	// every reserved word, in three casings, as a quoted name in every slot
+	// (a printer that decides "needs quotes" by a table with one word missing,
+	// or by a length shortcut, shows only for that word)
+	for _, k := range gen.Keywords {
+		lo := strings.ToLower(k)
+		names = append(names, `"`+lo+`"`, `"`+k+`"`, `"`+k[:1]+lo[1:]+`"`)
+	}
 	for _, nm := range names {
 		sweeps = append(sweeps,
 			"SELECT "+nm+", "+nm+"::float, "+nm+"."+nm+", mean("+nm+") AS "+nm+" INTO "+nm+"."+nm+"."+nm+" FROM "+nm+"."+nm+"."+nm+", "+nm+".."+nm+" WHERE "+nm+" = 1 GROUP BY "+nm,
